@@ -26,7 +26,7 @@ theorem child_fresh (V : Validated root tree G) {ph : Nat → Phase} {ctx : Ctx 
 def stepPhase (ph : Nat → Phase) (ni : Nat) (vni : Phase) (cs rs : List Nat) : Nat → Phase :=
   fun x => if x = ni then vni else if x ∈ cs then .p1 else if x ∈ rs then .pr else ph x
 
-theorem step_inv (V : Validated root tree G) {ph : Nat → Phase} {ctx ctx' : Ctx F} (h : Inv root tree G ph ctx)
+theorem step_inv_exp (V : Validated root tree G) {ph : Nat → Phase} {ctx ctx' : Ctx F} (h : Inv root tree G ph ctx)
     {ni : Nat} (hG : G ni) (hph : ph ni = .p1 ∨ ph ni = .p2) (hns : ni ∉ ctx.stack.toList)
     {pn : ParseNode} (hpn : tree[ni]? = some pn)
     (vni : Phase) (hv : vni = .p2 ∨ vni = .p3)
@@ -46,7 +46,7 @@ theorem step_inv (V : Validated root tree G) {ph : Nat → Phase} {ctx ctx' : Ct
         ∃ bn, ctx.nodes[ni]? = some (some bn) ∧ p.2.conditionalItems = bn.conditionalItems) ∨
       (p.1 ∈ cs ++ rs ∧ p.2.conditionalItems = #[]))
     (hasgni : vni = .p2 → ∃ b, (ni, b) ∈ asg) :
-    ∃ ph', Inv root tree G ph' ctx' ∧ total ph' tree.size < total ph tree.size := by
+    Inv root tree G (stepPhase ph ni vni cs rs) ctx' ∧ total (stepPhase ph ni vni cs rs) tree.size < total ph tree.size := by
   -- the children are fresh
   have hfreshc : ∀ c, c ∈ cs ++ rs → ph c = .p0 ∧ G c ∧ c ≠ ni := by
     intro c hc
@@ -104,7 +104,8 @@ theorem step_inv (V : Validated root tree G) {ph : Nat → Phase} {ctx ctx' : Ct
       subst hxn
       obtain ⟨b, hb⟩ := hasgni hv'
       exact hno b hb
-  refine ⟨ph', ⟨?_, ?_, ?_, ?_, ?_, ?_, ?_, ?_, ?_, ?_, ?_⟩, ?_⟩
+  change Inv root tree G ph' ctx' ∧ total ph' tree.size < total ph tree.size
+  refine ⟨⟨?_, ?_, ?_, ?_, ?_, ?_, ?_, ?_, ?_, ?_, ?_⟩, ?_⟩
   · -- stackNodup
     rw [hS]
     refine List.nodup_append.2 ⟨h.stackNodup, hsufN hnics hcsN, fun a ha b hb hab => ?_⟩
@@ -278,15 +279,42 @@ theorem step_inv (V : Validated root tree G) {ph : Nat → Phase} {ctx ctx' : Ct
         rcases hph with h2 | h2 <;> rw [h2] <;> decide
 
 
+theorem step_inv (V : Validated root tree G) {ph : Nat → Phase} {ctx ctx' : Ctx F} (h : Inv root tree G ph ctx)
+    {ni : Nat} (hG : G ni) (hph : ph ni = .p1 ∨ ph ni = .p2) (hns : ni ∉ ctx.stack.toList)
+    {pn : ParseNode} (hpn : tree[ni]? = some pn)
+    (vni : Phase) (hv : vni = .p2 ∨ vni = .p3)
+    (hv2 : vni = .p2 → ph ni = .p1 ∧ pn.definition ≠ .group ∧ pn.definition ≠ .nestedExpression)
+    (cs rs suf rsuf : List Nat) (asg : List (Nat × BuildNode))
+    (hS : ctx'.stack.toList = ctx.stack.toList ++ suf)
+    (hR : ctx'.rootStack.toList = ctx.rootStack.toList ++ rsuf)
+    (hN : ctx'.nodes = assign ctx.nodes asg)
+    (hsuf : ∀ x, x ∈ suf → (x = ni ∧ vni = .p2) ∨ x ∈ cs)
+    (hsufN : ni ∉ cs → cs.Nodup → suf.Nodup)
+    (hrsuf : ∀ x, x ∈ rsuf → x ∈ rs) (hrsufN : rs.Nodup → rsuf.Nodup)
+    (hcr : (cs ++ rs).Nodup)
+    (hchild : ∀ c, c ∈ cs ++ rs → IsChild tree ni c ∧ (LateRight tree ni c → vni = .p3) ∧ (ph ni = .p2 → LateRight tree ni c))
+    (hasgp : ∀ p, p ∈ asg → p.2.parseNodeIndex = p.1)
+    (hasg : ∀ p, p ∈ asg →
+      (p.1 = ni ∧ (vni = .p2 → p.2.state = .initialized) ∧
+        ∃ bn, ctx.nodes[ni]? = some (some bn) ∧ p.2.conditionalItems = bn.conditionalItems) ∨
+      (p.1 ∈ cs ++ rs ∧ p.2.conditionalItems = #[]))
+    (hasgni : vni = .p2 → ∃ b, (ni, b) ∈ asg) :
+    ∃ ph', Inv root tree G ph' ctx' ∧ total ph' tree.size < total ph tree.size :=
+  ⟨_, step_inv_exp V h hG hph hns hpn vni hv hv2 cs rs suf rsuf asg hS hR hN hsuf hsufN hrsuf hrsufN hcr hchild hasgp hasg hasgni⟩
+
+/-- the phases after `cond_inv` -/
+def condPhase (ph : Nat → Phase) (ni r cp : Nat) : Nat → Phase :=
+  fun x => if x = ni then .p3 else if x = r then .pc cp else ph x
+
 /-! ### an arm of an else-chain is recorded at the chain head (`handle_jump_if`, second visit, conditional parent) -/
 
-theorem cond_inv (V : Validated root tree G) {ph : Nat → Phase} {ctx ctx' : Ctx F} (h : Inv root tree G ph ctx)
+theorem cond_inv_exp (V : Validated root tree G) {ph : Nat → Phase} {ctx ctx' : Ctx F} (h : Inv root tree G ph ctx)
     {ni : Nat} (hG : G ni) (hph : ph ni = .p1 ∨ ph ni = .p2) (hns : ni ∉ ctx.stack.toList)
     {pn : ParseNode} (hpn : tree[ni]? = some pn) {r : Nat} (hr : pn.right = some r) (hlate : isLate pn.definition = true)
     {cp : Nat} {parent : BuildNode} (hcp : ctx.nodes[cp]? = some (some parent)) (item : ConditionItem) (hitem : item.nodeIndex = r)
     (hS : ctx'.stack = ctx.stack) (hR : ctx'.rootStack = ctx.rootStack)
     (hN : ctx'.nodes = putNode ctx.nodes cp { parent with conditionalItems := parent.conditionalItems.push item }) :
-    ∃ ph', Inv root tree G ph' ctx' ∧ total ph' tree.size < total ph tree.size := by
+    Inv root tree G (condPhase ph ni r cp) ctx' ∧ total (condPhase ph ni r cp) tree.size < total ph tree.size := by
   have hchild : IsChild tree ni r := ⟨pn, hpn, Or.inr hr⟩
   have hlr : LateRight tree ni r := ⟨pn, hpn, hr, hlate⟩
   have hnot : ¬ SchedDone tree ph ni r := by
@@ -297,13 +325,13 @@ theorem cond_inv (V : Validated root tree G) {ph : Nat → Phase} {ctx ctx' : Ct
   have hni0 : ph ni ≠ .p0 := by rcases hph with h1 | h1 <;> rw [h1] <;> intro h <;> cases h
   have hni3 : ph ni ≠ .p3 := by rcases hph with h1 | h1 <;> rw [h1] <;> intro h <;> cases h
   have hrn : r ≠ ni := fun hrn => hni0 (hrn ▸ hr0)
-  let ph' : Nat → Phase := fun x => if x = ni then .p3 else if x = r then .pc cp else ph x
-  have hni' : ph' ni = .p3 := by simp [ph']
-  have hr' : ph' r = .pc cp := by simp [ph', hrn]
+  let ph' : Nat → Phase := condPhase ph ni r cp
+  have hni' : ph' ni = .p3 := by simp [ph', condPhase]
+  have hr' : ph' r = .pc cp := by simp [ph', condPhase, hrn]
   have hsame : ∀ x, ph x ≠ .p0 → x ≠ ni → ph' x = ph x := by
     intro x hx hxn
     have : x ≠ r := fun hxr => hx (hxr ▸ hr0)
-    simp [ph', hxn, this]
+    simp [ph', condPhase, hxn, this]
   have hcpsz : cp < ctx.nodes.size := by
     rcases Nat.lt_or_ge cp ctx.nodes.size with h1 | h1
     · exact h1
@@ -335,9 +363,10 @@ theorem cond_inv (V : Validated root tree G) {ph : Nat → Phase} {ctx ctx' : Ct
     · subst hxn; exact absurd hni' hx
     · rcases Classical.em (x = r) with hxr | hxr
       · subst hxr; rw [hr0]; intro h; cases h
-      · have : ph' x = ph x := by simp [ph', hxn, hxr]
+      · have : ph' x = ph x := by simp [ph', condPhase, hxn, hxr]
         rw [← this]; exact hx
-  refine ⟨ph', ⟨?_, ?_, ?_, ?_, ?_, ?_, ?_, ?_, ?_, ?_, ?_⟩, ?_⟩
+  change Inv root tree G ph' ctx' ∧ total ph' tree.size < total ph tree.size
+  refine ⟨⟨?_, ?_, ?_, ?_, ?_, ?_, ?_, ?_, ?_, ?_, ?_⟩, ?_⟩
   · rw [hS]; exact h.stackNodup
   · intro x hx
     rw [hS] at hx
@@ -361,7 +390,7 @@ theorem cond_inv (V : Validated root tree G) {ph : Nat → Phase} {ctx ctx' : Ct
       · subst hxn; rw [hni'] at hp2; cases hp2
       · rcases Classical.em (x = r) with hxr | hxr
         · subst hxr; rw [hr'] at hp2; cases hp2
-        · have : ph' x = ph x := by simp [ph', hxn, hxr]
+        · have : ph' x = ph x := by simp [ph', condPhase, hxn, hxr]
           rw [← this]; exact hp2
     rcases hget x bn' hx with ⟨h1, h2⟩ | ⟨_, h2⟩
     · subst h1; subst h2
@@ -402,7 +431,7 @@ theorem cond_inv (V : Validated root tree G) {ph : Nat → Phase} {ctx ctx' : Ct
     · have hc0' : ph c ≠ .p0 := by
         rcases Classical.em (c = ni) with hcn | hcn
         · subst hcn; exact hni0
-        · have : ph' c = ph c := by simp [ph', hcn, hcr]
+        · have : ph' c = ph c := by simp [ph', condPhase, hcn, hcr]
           rw [← this]; exact hc0
       rcases h.fresh c hcG hc0' with h1 | ⟨p, hp, hpc, hs⟩
       · exact Or.inl h1
@@ -413,7 +442,7 @@ theorem cond_inv (V : Validated root tree G) {ph : Nat → Phase} {ctx ctx' : Ct
       · subst hxn; rw [hni'] at hp2; cases hp2
       · rcases Classical.em (x = r) with hxr | hxr
         · subst hxr; rw [hr'] at hp2; cases hp2
-        · have : ph' x = ph x := by simp [ph', hxn, hxr]
+        · have : ph' x = ph x := by simp [ph', condPhase, hxn, hxr]
           rw [← this]; exact hp2
     exact h.p2two x pn' hx hx2
   · intro x bn' hx
@@ -426,10 +455,20 @@ theorem cond_inv (V : Validated root tree G) {ph : Nat → Phase} {ctx ctx' : Ct
       · subst hxn; rw [hni']; simp [Phase.rank]
       · rcases Classical.em (x = r) with hxr | hxr
         · subst hxr; rw [hr', hr0]; simp [Phase.rank]
-        · have : ph' x = ph x := by simp [ph', hxn, hxr]
+        · have : ph' x = ph x := by simp [ph', condPhase, hxn, hxr]
           rw [this]; exact Nat.le_refl _
     · refine ⟨ni, G_lt V hG, ?_⟩
       rw [hni']
       rcases hph with h2 | h2 <;> rw [h2] <;> decide
+
+
+theorem cond_inv (V : Validated root tree G) {ph : Nat → Phase} {ctx ctx' : Ctx F} (h : Inv root tree G ph ctx)
+    {ni : Nat} (hG : G ni) (hph : ph ni = .p1 ∨ ph ni = .p2) (hns : ni ∉ ctx.stack.toList)
+    {pn : ParseNode} (hpn : tree[ni]? = some pn) {r : Nat} (hr : pn.right = some r) (hlate : isLate pn.definition = true)
+    {cp : Nat} {parent : BuildNode} (hcp : ctx.nodes[cp]? = some (some parent)) (item : ConditionItem) (hitem : item.nodeIndex = r)
+    (hS : ctx'.stack = ctx.stack) (hR : ctx'.rootStack = ctx.rootStack)
+    (hN : ctx'.nodes = putNode ctx.nodes cp { parent with conditionalItems := parent.conditionalItems.push item }) :
+    ∃ ph', Inv root tree G ph' ctx' ∧ total ph' tree.size < total ph tree.size :=
+  ⟨_, cond_inv_exp V h hG hph hns hpn hr hlate hcp item hitem hS hR hN⟩
 
 end Garnish.Lemmas.BuildTotal
